@@ -8,7 +8,7 @@ import tracegen as T
 import vcommon as V
 
 
-def drive(chk, drv, system, n, policy, runs, max_steps, args="", seed=None, trace=None, timeout=1500, tag="", fanout=0):
+def drive(chk, drv, system, n, policy, runs, max_steps, args="", seed=None, trace=None, timeout=1500, tag="", fanout=0, cont=None):
     out = os.path.join(chk.tmp, "%s-%s-n%d%s.ndjson" % (system, policy, n, tag))
     cmd = [drv, "-system", system, "-n", str(n), "-policy", policy, "-runs", str(runs), "-max-steps", str(max_steps),
            "-seed", str(chk.seed if seed is None else seed), "-out", out]
@@ -18,6 +18,8 @@ def drive(chk, drv, system, n, policy, runs, max_steps, args="", seed=None, trac
         cmd += ["-trace", trace]
     if fanout:
         cmd += ["-fanout", str(fanout)]
+    if cont:
+        cmd += ["-cont", json.dumps(cont)]
     rc, o = V.run(cmd, timeout=timeout)
     if rc != 0:
         raise V.Inconclusive("sysdrv %s %s n=%d failed (rc=%s): %s" % (system, policy, n, rc, o[-2000:]))
@@ -144,11 +146,8 @@ def fanout_conformance(chk, pid, work, module, text, out, consts, what, chunks=8
     return {"edges": nsucc, "accepted": res["accepted"], "rejected": len(res["rejected"])}
 
 
-def walk_conformance(chk, pid, work, module, text, out, consts, what, piece=2500, par=8, timeout=2400, max_rounds=3):
-    """Validate sysdrv -policy walk-* output: every step of each walk and every sampled successor of every
-    visited state must be the logged label's action of the specification (I->S, diff-encoded, see tracegen)."""
-    variables = T.extract_vars(text)
-    labels = T.extract_labels(text)
+def _walk_pieces(chk, pid, out, what, piece):
+    """Parse sysdrv -policy walk-* output into runs and diff-encoded pieces (see tracegen.make_walk_module)."""
     runs, cur = [], None
     for ln in V.read_jsonl(out):
         e = ln["e"]
@@ -199,6 +198,15 @@ def walk_conformance(chk, pid, work, module, text, out, consts, what, piece=2500
             if finished:
                 break
             i, skip_succ = j, True   # the next piece starts in the state this one ended in
+    return runs, pieces, nedges, nsteps
+
+
+def walk_conformance(chk, pid, work, module, text, out, consts, what, piece=2500, par=8, timeout=2400, max_rounds=3):
+    """Validate sysdrv -policy walk-* output: every step of each walk and every sampled successor of every
+    visited state must be the logged label's action of the specification (I->S, diff-encoded, see tracegen)."""
+    variables = T.extract_vars(text)
+    labels = T.extract_labels(text)
+    runs, pieces, nedges, nsteps = _walk_pieces(chk, pid, out, what, piece)
     if not pieces:
         return {"edges": 0, "steps": 0, "pieces": 0}
     todo = list(range(len(pieces)))
@@ -235,6 +243,49 @@ def walk_conformance(chk, pid, work, module, text, out, consts, what, piece=2500
             break
     chk.traces += len(runs)
     return {"edges": nedges, "steps": nsteps, "pieces": len(pieces), "rejected": rejected}
+
+
+def walk_safety(chk, pid, work, module, variables, out, consts, invariants, what, piece=6000, par=8, timeout=2400, max_rounds=3):
+    """P-level judgement of sysdrv -policy walk-* output: the recorded real-code states (every state of each walk and
+    every committed successor of every visited state) are taken as they are; TLC evaluates `invariants` in each.
+    Returns (stats, flagged) where flagged is a list of dict(invariant, kind 'step'|'succ', run, step, line, meta);
+    turning a flagged state into a verdict is the caller's business."""
+    runs, pieces, nedges, nsteps = _walk_pieces(chk, pid, out, what, piece)
+    flagged = []
+    if not pieces:
+        return {"edges": 0, "steps": 0, "pieces": 0}, flagged
+    todo = list(range(len(pieces)))
+    for _ in range(max_rounds):
+        res = T.validate_walk_pieces(work, module, variables, [pieces[k] for k in todo], consts, [], timeout=timeout, par=par,
+                                     conform=False, invariants=invariants)
+        nxt = []
+        for k, r in zip(todo, res):
+            chk.states += r["states"]; chk.transitions += r["generated"]
+            pc = pieces[k]
+            if r["error"]:
+                chk.inconclusive.append("walk judgement (%s): %s" % (what, r["error"][-700:]))
+            elif r["ok"]:
+                continue
+            elif r["violation"]:
+                j = r["violated_at"]
+                kind, ri, si, ln = pc["back"][j] if j is not None and j < len(pc["back"]) else ("?", 0, 0, None)
+                inv = next((i for i in invariants if i in r["violation"]), "invariant")
+                flagged.append({"invariant": inv, "tlc": r["violation"], "kind": kind, "run": ri, "step": si, "line": ln, "meta": runs[ri]["meta"],
+                                "pre_state": runs[ri]["steps"][si]["state"] if kind == "succ" else (runs[ri]["steps"][si - 1]["state"] if si > 0 else None),
+                                "state": runs[ri]["steps"][si]["state"] if kind in ("step", "init") else None})
+                if kind == "succ":
+                    pc["recs"] = pc["recs"][:j] + pc["recs"][j + 2:]
+                    pc["back"] = pc["back"][:j] + pc["back"][j + 2:]
+                    if len(pc["recs"]) > 1:
+                        nxt.append(k)
+                # a violated state of the walk itself: everything after it is reached through it; the piece ends here
+            else:
+                chk.drift.append({"what": what, "note": "walk piece not consumed completely", "stuck_at": r["stuck_at"]})
+        todo = nxt
+        if not todo:
+            break
+    chk.traces += len(runs)
+    return {"edges": nedges, "steps": nsteps, "pieces": len(pieces), "flagged": len(flagged)}, flagged
 
 
 def guided(chk, pid, drv, work, system, n, args, behaviours, what, max_report=3, as_violation=True, fanout=0):
